@@ -164,7 +164,7 @@ fn probe_file(args: &Args, path: &str, mut o: runner::Opts) {
         if output { outputs.push(port) } else { inputs.push(port) }
     }
     let d = Design { text: text.clone(), top: "Top".into(), clock: "i_clk".into(), reset: "i_rst".into(), inputs, outputs, features: vec![], has_ff: true };
-    let case = workload::Case { kind: "file".into(), design: d, arrays: if args.get("arrays").is_some() { vec![args.get("arrays").unwrap().parse().unwrap()] } else { vec![] }, ports: (1, 1), children: vec![], const_tied: 0 };
+    let case = workload::Case { kind: "file".into(), design: d, arrays: if args.get("arrays").is_some() { vec![args.get("arrays").unwrap().parse().unwrap()] } else { vec![] }, ports: (1, 1), children: vec![], const_tied: 0, counters: vec![] };
     o.libs = vec![0];
     let dump = args.get("dump").is_some();
     let seed = args.seed;
